@@ -348,4 +348,22 @@ PROPS = {
             {"name": "scenarios", "run": "TestSequentialScenarios", "kind": "plain"},
         ],
     },
+    "C17": {
+        "pkg": "c17",
+        "rule": ("rapid generates workloads that are run free on real goroutines in a -race build: 2-3 connection goroutines (one per peer, as SHIP delivers) "
+                 "each injecting 20-60 (thorough: up to 150) inbound messages of 14 kinds (reads, notifies, replies, writes incl. the approval path with running "
+                 "timers, subscription and binding calls, results, entity add/remove notifications; one connection is also removed and set up again in "
+                 "between) and 2-7 application goroutines issuing 22 kinds of public API calls (SetData / UpdateData in every filter shape, encoding "
+                 "DataCopy results, use-case changes, AddEntity / RemoveEntity, GetOrAddFeature / AddFunctionType, descriptions, SubscribeToRemote / "
+                 "BindToRemote / RequestRemoteData, heartbeat start/stop, event (un)subscription, notify lookups, registry and remote-tree reads). Oracle: every "
+                 "report of the race detector is normalised to the pair of innermost spine-go frames and mapped to an unsynchronised state; a workload that "
+                 "does not finish within 60 s with >=2 goroutines parked in locks inside spine-go is a deadlock (otherwise inconclusive). Non-trivial: >=3 "
+                 "inbound and >=3 application operation kinds were executed by the workload. Distinct by workload hash."),
+        "assumptions": ["free-running schedules: a race found is real, absence in N workloads is not a proof; reports are not reproducible or shrinkable",
+                        "open findings are keyed by state: a report is known iff both of its spine-go frames are functions listed for one state"],
+        "runs": [
+            {"name": "workloads", "run": "TestWorkloads", "kind": "rapid", "race": True, "checks": {Q: 48, T: 1600}, "shards": {Q: 4, T: 16}, "env": {"VERIF_C17_OPS": {Q: 60, T: 150}}, "timeout": {Q: 900, T: 7200}},
+            {"name": "storms", "run": "TestStorms", "kind": "plain", "race": True, "shards": {Q: 2, T: 8}, "env": {"VERIF_ROUNDS": {Q: 4, T: 25}}, "timeout": {Q: 900, T: 7200}},
+        ],
+    },
 }
